@@ -38,6 +38,20 @@ Theorem C19_check_reports_truth : forall (t : ty) hs ha ms ma,
   option_map snd (spec_sa Hlsl t) = Some ha /\ option_map snd (spec_sa Metal t) = Some ma.
 Proof. exact (check_reports_truth scalar ssize sbool array_min). Qed.
 
+(* the implementation computes sizes in 32 bits with checked operations: a type whose running sizes do not fit is
+   answered "unknown size" (`check32`); it accepts less than `check` and reports the same numbers *)
+Theorem C19_check32_sound : forall t : ty,
+  check32 scalar ssize sbool array_min t = Accept ->
+  exists z, spec_total Hlsl t = Some z /\ spec_total Metal t = Some z /\
+            spec_fields Hlsl t 0 = spec_fields Metal t 0.
+Proof. exact (check32_sound scalar ssize sbool array_min C19_array_stride_recorded). Qed.
+
+Theorem C19_check32_reports_truth : forall (t : ty) hs ha ms ma,
+  check32 scalar ssize sbool array_min t = Mismatch hs ha ms ma ->
+  spec_total Hlsl t = Some hs /\ spec_total Metal t = Some ms /\ hs <> ms /\
+  option_map snd (spec_sa Hlsl t) = Some ha /\ option_map snd (spec_sa Metal t) = Some ma.
+Proof. exact (check32_reports_truth scalar ssize sbool array_min). Qed.
+
 (* ---- non-vacuity and the two witnesses that the unrepaired checker accepted ---- *)
 Definition f1 := TScalar ST_Float32.
 Definition f2 := TVec ST_Float32 2.
@@ -60,3 +74,5 @@ Print Assumptions C19_scalar_sizes.
 Print Assumptions C19_array_stride_recorded.
 Print Assumptions C19_check_sound.
 Print Assumptions C19_check_reports_truth.
+Print Assumptions C19_check32_sound.
+Print Assumptions C19_check32_reports_truth.
